@@ -229,7 +229,8 @@ def c03_layout(nk2: int, nf2: int, k1: int, f1: int, k2: int, f2: int, k3: int, 
 
 SEL_TOK = ['a', 'b1', '/', '.', '_c']
 NTOK = 4   # '_c' only widens the vocabulary without adding parser behaviour
-CONTEXTS = ['binding key', 'block header', '@ value', '% value', 'import', 'from import']
+CONTEXTS = ['binding key', 'block header', '@ value', '% value', 'import', 'from import',
+            'evaluated @ value after non-ASCII text on the line']
 _ID = r'[A-Za-z_]\w*'
 RE_KEY = re.compile(r'^(%s/)*%s(\.%s)*$' % (_ID, _ID, _ID))
 RE_REF = re.compile(r'^(%s(\.%s)*/)*%s(\.%s)*$' % (_ID, _ID, _ID, _ID))
@@ -239,11 +240,11 @@ RE_MOD = re.compile(r'^%s(\.%s)*$' % (_ID, _ID))
 def c03_selectors(ngap: int, ctx: int, n: int, t0: int, t1: int, t2: int, t3: int, t4: int,
                   g1: int, g2: int, g3: int, g4: int) -> bool:
   """
-  pre: 0 <= ctx < 6 and 1 <= n <= 5
+  pre: 0 <= ctx < 7 and 1 <= n <= 5
   pre: 0 <= t0 < 4 and 0 <= t1 < 4 and 0 <= t2 < 4 and 0 <= t3 < 4 and 0 <= t4 < 4
   pre: 0 <= g1 < ngap and 0 <= g2 < ngap and 0 <= g3 < ngap and 0 <= g4 < ngap
   """
-  ctx = rt.pick(ctx, 6)
+  ctx = rt.pick(ctx, 7)
   toks = [rt.pick(t, 4) for t in (t0, t1, t2, t3, t4)[:n]]
   gaps = [0] + [rt.pick(g, ngap) for g in (g1, g2, g3, g4)[:n - 1]]
   with rt.native():
@@ -268,6 +269,9 @@ def c03_selectors(ngap: int, ctx: int, n: int, t0: int, t1: int, t2: int, t3: in
     elif ctx == 4:
       text = 'import ' + sel + '\n'
       ok = tight and bool(RE_MOD.match(joined))
+    elif ctx == 6:
+      text = "x.p = ['\u00e9\u65e5', @" + sel + '(), 2]\n'
+      ok = tight and bool(RE_REF.match(joined))
     else:
       text = 'from ' + sel + ' import zz\n'
       ok = tight and bool(RE_MOD.match(joined))
@@ -300,9 +304,461 @@ def c03_selectors(ngap: int, ctx: int, n: int, t0: int, t1: int, t2: int, t3: in
       want = [('bind', '', 'x', 'p', ('macro', joined))]
     elif ctx == 4:
       want = [('import', joined, False, None)]
+    elif ctx == 6:
+      want = [('bind', '', 'x', 'p', ['\u00e9\u65e5', ('ref', joined, True), 2])]
     else:
       want = [('import', joined + '.zz', True, None)]
     return got == want
+
+
+
+# ------------------------------------------------------------------------------------------
+# c03_texts: a catalogue of statement texts the renderer above cannot produce, each placed in a
+# context (statement before / after, own indentation, member indentation, line terminator,
+# final newline).  Every entry has a class:
+#   'A'  the statement decides: the text spells exactly these statements (layout dimension named
+#        in the statement: comments, blank lines, backslash continuation, indentation of blocks,
+#        flat vs block, trailing newline)
+#   'R'  the text is not a statement sequence (or holds a scoped name with inner whitespace /
+#        empty component / misplaced separator): it must be rejected, and nothing of it may reach
+#        the configuration
+#   'M'  the statement is silent (spacing it does not name, form feeds, keyword-like names ...):
+#        either rejected, or read as exactly these statements - never as something else
+# Placeholders: {I} indentation of the entry, {M} additional indentation of block members.
+# flags: 'raw' (text must not be re-indented / re-terminated), 'last' (only as the last thing of
+# the text), 'blk' (contains a block header: indentation of it is "indentation of blocks").
+def _b(scope, sel, arg, val):
+  return ('bind', scope, sel, arg, val)
+
+
+_SRC = ('ref', 's/vw.src', False)
+_SRCE = ('ref', 's/vw.src', True)
+_HDR = ('block', 's', 'vw.cons')
+_P1 = _b('s', 'vw.cons', 'p', 1)
+_Q2 = _b('s', 'vw.cons', 'q', 2)
+_FP = lambda v: [(1, _b('', 'vw.cons', 'p', v))]
+_ML = "'''a\nb'''"    # a string token that spans two physical lines
+
+
+def _rej(tag, text, flags=''):
+  return (tag, 'R', text, None, flags, None)
+
+
+GROUPS = {
+    # ---- blocks the renderer cannot produce (review item 3) and degenerate texts (item 10) ----
+    'blocks': [
+        ('blk2', 'A', '{I}s/vw.cons:\n{I}{M}p = 1\n{I}{M}q = 2\n', [(1, _HDR), (2, _P1), (3, _Q2)], 'blk', None),
+        ('blk-col0-comment-and-blank-between', 'A', '{I}s/vw.cons:\n{I}{M}p = 1\n# c\n   \n{I}{M}q = 2\n',
+         [(1, _HDR), (2, _P1), (5, _Q2)], 'blk', None),
+        ('blk-bracket-lines-dedented', 'A', '{I}s/vw.cons:\n{I}{M}p = [1,\n2]\n{I}{M}q = 3\n',
+         [(1, _HDR), (2, _b('s', 'vw.cons', 'p', [1, 2])), (4, _b('s', 'vw.cons', 'q', 3))], 'blk', None),
+        ('blk-last-line-comment', 'A', '{I}s/vw.cons:\n{I}{M}p = 1\n{I}{M}# last\n', [(1, _HDR), (2, _P1)], 'blk', None),
+        ('blk-last-line-comment-col0', 'A', '{I}s/vw.cons:\n{I}{M}p = 1\n# last\n', [(1, _HDR), (2, _P1)], 'blk', None),
+        ('blk-comments-at-odd-indents', 'A',
+         '{I}s/vw.cons:\n{I}{M}p = 1\n{I}{M}{M}# deeper\n{I} # shallower\n{I}{M}q = 2\n',
+         [(1, _HDR), (2, _P1), (5, _Q2)], 'blk', None),
+        ('blk-header-comment-tight-then-col0-lines', 'A', '{I}s/vw.cons:# c\n\n# c2\n{I}{M}p = 1\n',
+         [(1, _HDR), (4, _P1)], 'blk', None),
+        ('blk-member-continuation-dedented', 'A', '{I}s/vw.cons:\n{I}{M}p = \\\n@s/vw.src()\n{I}{M}q = 2\n',
+         [(1, _HDR), (2, _b('s', 'vw.cons', 'p', _SRCE)), (4, _Q2)], 'blk', None),
+        ('blk-space-before-colon', 'M', '{I}s/vw.cons :\n{I}{M}p = 1\n', [(1, _HDR), (2, _P1)], 'blk',
+         '{I}s/vw.cons.p = 1\n'),
+        ('blk-spaces-colon-comment', 'M', '{I}s/vw.cons  :  # c\n{I}{M}p = 1\n', [(1, _HDR), (2, _P1)], 'blk', None),
+        ('blk-members-unequal-indent', 'M', '{I}s/vw.cons:\n{I}{M}{M}p = 1\n{I}{M}q = 2\n',
+         [(1, _HDR), (2, _P1), (3, _Q2)], 'blk', None),
+        ('blk-dedent-to-unknown-level', 'M', '  s/vw.cons:\n    p = 1\n vw.dflt.b = 3\n',
+         [(1, _HDR), (2, _P1), (3, _b('', 'vw.dflt', 'b', 3))], 'raw blk', None),
+        ('flat-dedent-to-unknown-level', 'M', '    vw.cons.p = 1\n  vw.cons.q = 2\n',
+         [(1, _b('', 'vw.cons', 'p', 1)), (2, _b('', 'vw.cons', 'q', 2))], 'raw', None),
+        ('blk-tab-then-spaces', 'M', 's/vw.cons:\n\tp = 1\n        q = 2\n', [(1, _HDR), (2, _P1), (3, _Q2)],
+         'raw blk', None),
+        # zero statements
+        ('nothing', 'A', '', [], '', None),
+        ('comment-only', 'A', '{I}# only\n', [], '', None),
+        ('spaces-only', 'A', '   \n', [], '', None),
+        ('blank-lines', 'A', '\n\n\n', [], '', None),
+        ('lone-backslash-line', 'M', '\\\n', [], 'last', None),
+        ('formfeed-line', 'M', '\f\n', [], '', None),
+        ('formfeed-before-statement', 'M', '\f{I}vw.cons.p = 1\n', _FP(1), '', None),
+        ('formfeed-after-statement', 'M', '{I}vw.cons.p = 1\f\n', _FP(1), '', None),
+        ('formfeed-before-member', 'M', '{I}s/vw.cons:\n\f{I}{M}p = 1\n', [(1, _HDR), (2, _P1)], 'blk', None),
+        ('formfeed-inside-member-indent', 'M', '{I}s/vw.cons:\n{I}{M}\fp = 1\n', [(1, _HDR), (2, _P1)], 'blk', None),
+        ('lone-cr-line-ends', 'M', 'vw.cons.p = 1\rvw.cons.q = 2\r',
+         [(1, _b('', 'vw.cons', 'p', 1)), (2, _b('', 'vw.cons', 'q', 2))], 'raw last', None),
+    ],
+    # ---- malformed blocks (item 2) ---------------------------------------------------------
+    'badblocks': [
+        _rej('blk-empty', '{I}s/vw.cons:\n'),
+        _rej('blk-comment-only', '{I}s/vw.cons:\n{I}{M}# c\n'),
+        _rej('blk-unindented-member', '{I}s/vw.cons:\n{I}p = 1\n'),
+        _rej('blk-member-on-header-line', '{I}s/vw.cons: p = 1\n'),
+        _rej('blk-deeper-second-member', '{I}s/vw.cons:\n{I}{M}p = 1\n{I}{M}{M}q = 2\n'),
+        _rej('blk-nested-header', '{I}s/vw.cons:\n{I}{M}vw.dflt:\n{I}{M}{M}a = 1\n'),
+        _rej('blk-dotted-member', '{I}s/vw.cons:\n{I}{M}vw.cons.p = 1\n'),
+        _rej('blk-dotted-member-2', '{I}s/vw:\n{I}{M}cons.p = 1\n'),
+        _rej('blk-scoped-member', '{I}vw.cons:\n{I}{M}s/p = 1\n'),
+        _rej('blk-import-inside', '{I}s/vw.cons:\n{I}{M}import os\n'),
+        _rej('blk-include-inside', "{I}s/vw.cons:\n{I}{M}include 'inc.gin'\n"),
+        _rej('blk-header-continuation', '{I}s/vw.cons:\\\n{I}{M}p = 1\n'),
+        _rej('blk-member-two-names', '{I}s/vw.cons:\n{I}{M}p q = 1\n'),
+        _rej('blk-good-member-then-bare-name', '{I}s/vw.cons:\n{I}{M}p = 1\n{I}{M}q\n'),
+        _rej('blk-good-member-then-two-values', '{I}s/vw.cons:\n{I}{M}p = 1\n{I}{M}q = 2 3\n'),
+        _rej('blk-member-colon', '{I}s/vw.cons:\n{I}{M}p: 1\n'),
+        _rej('blk-two-colons', '{I}s/vw.cons::\n{I}{M}p = 1\n'),
+        _rej('blk-header-with-value', '{I}s/vw.cons: 1\n{I}{M}p = 1\n'),
+    ],
+    # ---- statement parts on different physical lines (item 4), joining near-misses (item 12) --
+    'joins': [
+        ('cont-before-eq', 'A', '{I}vw.cons.p \\\n{I} = 1\n', _FP(1), '', None),
+        ('cont-after-import', 'A', '{I}import \\\n{I} os.path\n', [(1, ('import', 'os.path', False, None))], '', None),
+        ('cont-before-as', 'A', '{I}import os.path \\\n{I}  as osq\n', [(1, ('import', 'os.path', False, 'osq'))], '',
+         None),
+        ('cont-before-from-import', 'A', '{I}from os \\\n{I} import path\n', [(1, ('import', 'os.path', True, None))],
+         '', None),
+        ('cont-after-from-import', 'A', '{I}from os import \\\n{I} path\n', [(1, ('import', 'os.path', True, None))],
+         '', None),
+        ('cont-before-from-as', 'A', '{I}from os import path \\\nas pq\n', [(1, ('import', 'os.path', True, 'pq'))],
+         '', None),
+        ('cont-then-empty-line', 'M', '{I}vw.cons.p = 1 \\\n\n', _FP(1), '', None),
+        ('comment-swallows-rest', 'A', '{I}vw.cons.p = 1 # c ; vw.cons.q = 2\n', _FP(1), '', None),
+        _rej('comment-splits-before-eq', '{I}vw.cons.p # c\n{I} = 1\n'),
+        _rej('comment-splits-after-eq', '{I}vw.cons.p = # c\n{I} 1\n'),
+        _rej('comment-splits-import', '{I}import # c\n{I} os\n'),
+        _rej('newline-after-eq', '{I}vw.cons.p =\n{I}1\n'),
+        _rej('semicolon-join', '{I}vw.cons.p = 1; vw.cons.q = 2\n'),
+        _rej('space-join', '{I}vw.cons.p = 1 vw.cons.q = 2\n'),
+        _rej('continuation-join', '{I}vw.cons.p = 1 \\\n{I} vw.cons.q = 2\n'),
+        _rej('double-eq', '{I}vw.cons.p == 1\n'),
+        _rej('walrus', '{I}vw.cons.p := 1\n'),
+        _rej('plus-eq', '{I}vw.cons.p += 1\n'),
+        _rej('eq-eq-spaced', '{I}vw.cons.p = = 1\n'),
+        _rej('annotated', '{I}vw.cons.p: int = 1\n'),
+        _rej('colon-value', '{I}vw.cons: 1\n'),
+        _rej('bare-key', '{I}vw.cons.p\n'),
+        _rej('bare-name', '{I}vw\n'),
+        _rej('two-eq', '{I}vw.cons.p = 1 = 2\n'),
+        _rej('trailing-comma', '{I}vw.cons.p = 1,\n'),
+        _rej('bare-tuple', '{I}vw.cons.p = 1, 2\n'),
+        _rej('no-key', '{I}= 1\n'),
+        _rej('no-value', '{I}vw.cons.p =\n'),
+        _rej('number-key', '{I}1.p = 2\n'),
+        _rej('string-key', "{I}'vw.cons.p' = 2\n"),
+    ],
+    # ---- references / macros inside values (items 5 and 6) ------------------------------------
+    'refs': [
+        ('ref-call-split-by-comment-in-brackets', 'A', '{I}vw.cons.p = [@s/vw.src(\n# c\n)]\n', _FP([_SRCE]), '',
+         None),
+        ('ref-after-nonascii', 'A', "{I}vw.cons.p = ['é', @s/vw.src]\n", _FP(['é', _SRC]), '', None),
+        ('macro-after-wide-key', 'A', "{I}vw.cons.p = {'日本': %sc/mac}\n",
+         _FP({'日本': ('macro', 'sc/mac')}), '', None),
+        ('ref-after-astral', 'A', "{I}vw.cons.p = ['\U0001F600', @s/vw.src()]\n", _FP(['\U0001F600', _SRCE]), '',
+         None),
+        ('ref-after-multiline-string', 'A', 'vw.cons.p = [' + _ML + ', @s/vw.src]\n', _FP(['a\nb', _SRC]), 'raw',
+         None),
+        ('ref-on-bracket-continuation-line', 'A', '{I}vw.cons.p = [1,\n   @s/vw.src]\n', _FP([1, _SRC]), '', None),
+        ('ref-space-after-sigil', 'M', '{I}vw.cons.p = @ s/vw.src\n', _FP(_SRC), '', '{I}vw.cons.p = @s/vw.src\n'),
+        ('macro-spaces-after-sigil', 'M', '{I}vw.cons.p = %  mac\n', _FP(('macro', 'mac')), '', None),
+        ('ref-continuation-after-sigil', 'M', '{I}vw.cons.p = @\\\ns/vw.src\n', _FP(_SRC), '', None),
+        ('ref-space-before-parens', 'M', '{I}vw.cons.p = @s/vw.src ()\n', _FP(_SRCE), '',
+         '{I}vw.cons.p = @s/vw.src()\n'),
+        ('ref-space-inside-parens', 'M', '{I}vw.cons.p = @s/vw.src( )\n', _FP(_SRCE), '', None),
+        ('ref-spaces-around-parens', 'M', '{I}vw.cons.p = [@s/vw.src ( ), 2]\n', _FP([_SRCE, 2]), '', None),
+        _rej('ref-call-with-argument', '{I}vw.cons.p = @s/vw.src(1)\n'),
+        _rej('ref-call-unclosed', '{I}vw.cons.p = @s/vw.src(\n'),
+        _rej('ref-call-twice', '{I}vw.cons.p = @s/vw.src()()\n'),
+        _rej('ref-eval-space-before-slash', '{I}vw.cons.p = @s /vw.src()\n'),
+        _rej('ref-eval-space-after-slash', '{I}vw.cons.p = @s/ vw.src()\n'),
+        _rej('ref-eval-space-before-dot', '{I}vw.cons.p = [1, @s/vw .src(), 2]\n'),
+        _rej('ref-eval-empty-scope', '{I}vw.cons.p = @s//vw.src()\n'),
+        _rej('ref-eval-leading-slash', '{I}vw.cons.p = @/vw.src()\n'),
+        _rej('ref-eval-trailing-slash', '{I}vw.cons.p = @s/vw.src/()\n'),
+        _rej('ref-eval-double-dot', '{I}vw.cons.p = @s/vw..src()\n'),
+        _rej('macro-leading-dot', '{I}vw.cons.p = %.mac\n'),
+        _rej('macro-trailing-dot', '{I}vw.cons.p = %mac.\n'),
+        _rej('bad-ref-after-nonascii', "{I}vw.cons.p = ['é', @s /vw.src]\n"),
+        _rej('bad-macro-after-wide-key', "{I}vw.cons.p = {'日本': %sc /mac}\n"),
+        _rej('bad-ref-after-astral', "{I}vw.cons.p = ['\U0001F600', @s/ vw.src]\n"),
+        _rej('bad-ref-after-multiline-string', 'vw.cons.p = [' + _ML + ', @s /vw.src]\n', 'raw'),
+        _rej('bad-ref-after-long-multiline-string',
+             "vw.cons.p = ['''a\nbcdefghijklmnopqrstuvwxyz''', @s/ vw.src]\n", 'raw'),
+        _rej('bad-ref-on-bracket-continuation-line', '{I}vw.cons.p = [1,\n   @s /vw.src]\n'),
+        _rej('bad-ref-tab-on-continuation-line', '{I}vw.cons.p = [1,\n@s\t/vw.src]\n'),
+        _rej('bad-key-after-nonascii-scope', '{I}sé/vw .cons.p = 1\n'),
+    ],
+    # ---- identifier positions of the import forms (item 7), keyword-like names (item 8),
+    #      include operands (item 9) ----------------------------------------------------------
+    'names': [
+        _rej('alias-dotted', '{I}import os as b.c\n'),
+        _rej('alias-scoped', '{I}import os as b/c\n'),
+        _rej('alias-number', '{I}import os as 1\n'),
+        _rej('alias-missing', '{I}import os as\n'),
+        _rej('alias-missing-dotted-module', '{I}import os.path as\n'),
+        _rej('alias-two-names', '{I}import os as b c\n'),
+        _rej('import-two-names', '{I}import os sys\n'),
+        _rej('import-list', '{I}import os, sys\n'),
+        _rej('from-dotted-name', '{I}from os import path.join\n'),
+        _rej('from-star', '{I}from os import *\n'),
+        _rej('from-parenthesised', '{I}from os import (path)\n'),
+        _rej('from-list', '{I}from os import path, sep\n'),
+        _rej('from-without-import', '{I}from os\n'),
+        _rej('from-import-nothing', '{I}from os import\n'),
+        _rej('from-relative', '{I}from . import os\n'),
+        _rej('from-relative-module', '{I}from .os import path\n'),
+        _rej('from-alias-dotted', '{I}from os import path as p.q\n'),
+        _rej('bare-import', '{I}import\n'),
+        _rej('bare-from', '{I}from\n'),
+        _rej('import-string', "{I}import 'os'\n"),
+        ('alias-named-as', 'M', '{I}import os as as\n', [(1, ('import', 'os', False, 'as'))], '', None),
+        ('scope-named-import', 'M', '{I}import/vw.cons.p = 1\n', [(1, _b('import', 'vw.cons', 'p', 1))], '',
+         '{I}import/vw.cons:\n{I}  p = 1\n'),
+        ('scope-named-include', 'M', '{I}include/vw.cons.p = 1\n', [(1, _b('include', 'vw.cons', 'p', 1))], '',
+         '{I}include/vw.cons:\n{I}  p = 1\n'),
+        ('scope-named-from', 'M', '{I}from/vw.cons.p = 1\n', [(1, _b('from', 'vw.cons', 'p', 1))], '',
+         '{I}from/vw.cons:\n{I}  p = 1\n'),
+        ('scope-named-None', 'M', '{I}None/vw.cons.p = 1\n', [(1, _b('None', 'vw.cons', 'p', 1))], '',
+         '{I}None/vw.cons:\n{I}  p = 1\n'),
+        ('scope-named-import-block', 'M', '{I}import/vw.cons:\n{I}{M}p = 1\n',
+         [(1, ('block', 'import', 'vw.cons')), (2, _b('import', 'vw.cons', 'p', 1))], 'blk',
+         '{I}import/vw.cons.p = 1\n'),
+        ('macro-named-include', 'M', "{I}include = 'x'\n", [(1, _b('', 'include', '', 'x'))], '',
+         "{I}include='x'  # c\n"),
+        ('macro-named-from', 'M', '{I}from = 1\n', [(1, _b('', 'from', '', 1))], '', '{I}from   =   1\n'),
+        ('macro-named-import', 'M', '{I}import = 2\n', [(1, _b('', 'import', '', 2))], '', '{I}import \\\n= 2\n'),
+        ('configurable-named-from', 'M', '{I}from.x = 1\n', [(1, _b('', 'from', 'x', 1))], '',
+         '{I}from:\n{I} x = 1\n'),
+        ('configurable-named-as', 'M', '{I}as.x = 1\n', [(1, _b('', 'as', 'x', 1))], '', '{I}as:\n{I} x = 1\n'),
+        ('configurable-named-from-block', 'M', '{I}from:\n{I}{M}x = 1\n',
+         [(1, ('block', '', 'from')), (2, _b('', 'from', 'x', 1))], 'blk', '{I}from.x = 1\n'),
+        ('keyword-scope-and-configurable-block', 'M', '{I}from/import:\n{I}{M}x = 3\n',
+         [(1, ('block', 'from', 'import')), (2, _b('from', 'import', 'x', 3))], 'blk', '{I}from/import.x = 3\n'),
+        _rej('scope-import-space-after-slash', '{I}import/ vw.cons.p = 1\n'),
+        _rej('scope-include-space-before-slash', '{I}include /vw.cons.p = 1\n'),
+        _rej('scope-from-space-before-dot', '{I}from/vw.cons .p = 1\n'),
+        ('include-double-quotes', 'A', '{I}include "inc.gin"\n', [(1, ('include', 'inc.gin'))], '', None),
+        ('include-adjacent-strings', 'M', "{I}include 'inc' '.gin'\n", [(1, ('include', 'inc.gin'))], '', None),
+        ('include-triple-quoted', 'M', "{I}include '''inc.gin'''\n", [(1, ('include', 'inc.gin'))], '', None),
+        ('include-raw-string', 'M', "{I}include r'inc.gin'\n", [(1, ('include', 'inc.gin'))], '', None),
+        _rej('include-parenthesised', "{I}include ('inc.gin')\n"),
+        _rej('include-bytes', "{I}include b'inc.gin'\n"),
+        _rej('include-number', '{I}include 1\n'),
+        _rej('include-none', '{I}include None\n'),
+        _rej('include-negated', "{I}include -'inc.gin'\n"),
+        _rej('include-bare', '{I}include\n'),
+        _rej('include-then-binding', "{I}include 'inc.gin' vw.cons.p = 1\n"),
+        _rej('include-semicolon-binding', "{I}include 'inc.gin'; vw.cons.p = 1\n"),
+        _rej('include-name', '{I}include inc.gin\n'),
+    ],
+}
+GROUP_NAMES = ['blocks', 'badblocks', 'joins', 'refs', 'names']
+NCASE = max(len(v) for v in GROUPS.values())
+assert NCASE <= 60   # the bound on `case` in the precondition of c03_texts
+
+PRE = [('', []),
+       ('vw.dflt.a = 1\n', [(1, _b('', 'vw.dflt', 'a', 1))]),
+       ('t/vw.cons:\n  p = 7\n', [(1, ('block', 't', 'vw.cons')), (2, _b('t', 'vw.cons', 'p', 7))]),
+       ('import os.path as osp\n', [(1, ('import', 'os.path', False, 'osp'))])]
+POST = [('', []),
+        ('vw.dflt.b = 2\n', [(1, _b('', 'vw.dflt', 'b', 2))]),
+        ('u/vw.cons:\n  q = 8\n', [(1, ('block', 'u', 'vw.cons')), (2, _b('u', 'vw.cons', 'q', 8))])]
+INDS = ['', '  ', '\t']
+MINDS = ['  ', '\t', ' ', '      ']
+# (line terminator, final newline)
+SHAPES = [('\n', True), ('\n', False), ('\r\n', True), ('\r\n', False)]
+
+
+def _register_probes():
+  for name in ('from', 'as'):
+    try:
+      def probe(x=0):
+        return x
+      probe.__name__ = 'kw_' + name
+      gin.configurable(name, module='vw03')(probe)
+    except ValueError:
+      pass      # already registered in this process
+
+
+_register_probes()
+
+
+def fmt(v):
+  """Canonical text of a value of the Delegate above."""
+  if isinstance(v, tuple) and len(v) == 3 and v[0] == 'ref':
+    return '@' + v[1] + ('()' if v[2] else '')
+  if isinstance(v, tuple) and len(v) == 2 and v[0] == 'macro':
+    return '%' + v[1]
+  if isinstance(v, list):
+    return '[' + ', '.join(fmt(x) for x in v) + ']'
+  if isinstance(v, dict):
+    return '{' + ', '.join(fmt(k) + ': ' + fmt(x) for k, x in v.items()) + '}'
+  return repr(v)
+
+
+def flat_text(stmts):
+  """The canonical flat layout of a statement sequence (block declarations spell nothing)."""
+  out = []
+  for _, st in stmts:
+    if st[0] == 'bind':
+      _, scope, sel, arg, val = st
+      out.append((scope + '/' if scope else '') + sel + ('.' + arg if arg else '') + ' = ' + fmt(val))
+    elif st[0] == 'import':
+      _, module, is_from, alias = st
+      if is_from:
+        pkg, name = module.rsplit('.', 1)
+        t = 'from %s import %s' % (pkg, name)
+      else:
+        t = 'import ' + module
+      out.append(t + (' as ' + alias if alias else ''))
+    elif st[0] == 'include':
+      out.append("include '%s'" % st[1])
+  return ''.join(l + '\n' for l in out)
+
+
+def _config_of(text):
+  """(raised?, configuration) after gin.parse_config(text) on a fresh Gin."""
+  world.fresh()
+  world.use_mem_fs({'inc.gin': 'vw.src2.v = 77\n'})
+  try:
+    gin.parse_config(text)
+    raised = False
+  except Exception:   # pylint: disable=broad-except
+    raised = True
+  body = [l for l in gin.config_str().split('\n') if not l.startswith(('import ', 'from '))]
+  imports = sorted((i.module, i.is_from, i.alias or '') for i in gin.config._IMPORTS)
+  return raised, (body, imports)
+
+
+def _stream_of(text):
+  """(statements yielded, raised?) of the real parser."""
+  got = []
+  try:
+    for st in config_parser.ConfigParser(text, Delegate()):
+      got.append((canon(st), st.location.line_num))
+  except Exception:   # pylint: disable=broad-except
+    return got, True
+  return got, False
+
+
+def c03_texts(nind: int, nmind: int, nshape: int, grp: int, case: int, pre: int, post: int, ind: int,
+              mind: int, shape: int) -> bool:
+  """
+  pre: 0 <= grp < 5 and 0 <= case < 60 and 0 <= pre < 4 and 0 <= post < 3
+  pre: 0 <= ind < nind <= 3 and 0 <= mind < nmind <= 4 and 0 <= shape < nshape <= 4
+  """
+  # every choice is made among the values that make sense after the earlier ones, so that (nearly)
+  # every path is a text: a symbolic comparison discards the rest of a range in one path
+  def choose(k, allowed):
+    if k >= len(allowed):
+      rt.discard()
+    return allowed[rt.pick(k, len(allowed))]
+  cases = GROUPS[GROUP_NAMES[rt.pick(grp, len(GROUP_NAMES))]]
+  tag, cls, tmpl, stmts, flags, alt = choose(case, cases)
+  flags = flags.split()
+  pre = rt.pick(pre, len(PRE))
+  post = choose(post, [0] if 'last' in flags else [0, 1, 2])
+  # an indented line right after a block is (or is not) a member of it: own entries, not a context
+  ind = choose(ind, list(range(nind)) if '{I}' in tmpl and 'raw' not in flags and pre != 2 else [0])
+  mind = choose(mind, list(range(nmind)) if '{M}' in tmpl else [0])
+  shape = choose(shape, [k for k in range(nshape) if not ('raw' in flags and SHAPES[k][0] != '\n')
+                         and not ('last' in flags and not SHAPES[k][1])])
+  with rt.native():
+    eol, final_nl = SHAPES[shape]
+    fill = lambda t: t.replace('{I}', INDS[ind]).replace('{M}', MINDS[mind])
+    body = fill(tmpl)
+    pre_text, pre_st = PRE[pre]
+    post_text, post_st = POST[post]
+
+    def assemble(mid):
+      t = pre_text + mid + post_text
+      if not final_nl:
+        if not t.endswith('\n'):
+          return None
+        t = t[:-1]
+      return t.replace('\n', eol) if eol != '\n' else t
+    text = assemble(body)
+    if text is None or (not final_nl and not post and not body):
+      rt.discard()
+    # what the statement demands in this context
+    if cls == 'A' and (eol != '\n' or (ind and 'blk' not in flags)):
+      cls = 'M'   # line terminators / indentation of flat statements: the statement names neither
+    rt.sig(('text', tag, pre, post, ind, mind, shape), nontrivial=True)
+    n_pre, n_body = pre_text.count('\n'), body.count('\n')
+    got, raised = _stream_of(text)
+    pre_expected = [(st, off) for off, st in pre_st]
+    cfg_raised, cfg = _config_of(text)
+    accepted = not raised
+    if accepted:
+      if cls == 'R':
+        return rt.no('%s: accepted, read as %r' % (tag, got))
+      expected = (pre_expected + [(st, n_pre + off) for off, st in stmts] +
+                  [(st, n_pre + n_body + off) for off, st in post_st])
+      if not rt.same(tag + ': statement stream', got, expected):
+        return False
+      if cfg_raised:
+        return rt.no('%s: statements recovered but parse_config raised' % tag)
+      want_raised, want = _config_of(flat_text(pre_st) + flat_text(stmts) + flat_text(post_st))
+      if want_raised:
+        raise rt.HarnessError('canonical text of %s does not load' % tag)
+      if not rt.same(tag + ': configuration', cfg, want):
+        return False
+    else:
+      if cls == 'A':
+        return rt.no('%s: rejected' % tag)
+      # nothing of the rejected text may have been read or bound: only (a prefix of) what stands
+      # before it (a tokenizer error may surface while the parser looks ahead)
+      if got != pre_expected[:len(got)]:
+        return rt.no('%s: rejected, but first yielded %r' % (tag, got))
+      if not cfg_raised:
+        return rt.no('%s: parser rejects, parse_config accepts' % tag)
+      allowed = [_config_of('')[1], _config_of(flat_text(pre_st))[1]]
+      if cfg not in allowed:
+        return rt.no('%s: rejected, but the configuration holds %r' % (tag, cfg))
+    if alt is not None:
+      # the same statements in another layout: same fate, same configuration
+      alt_text = assemble(fill(alt))
+      alt_got, alt_raised = _stream_of(alt_text)
+      if alt_raised != raised:
+        return rt.no('%s: %s, but the layout %r is %s' % (tag, 'rejected' if raised else 'accepted', alt_text,
+                                                          'rejected' if alt_raised else 'accepted'))
+      if accepted:
+        binds = lambda g: [s for s, _ in g if s[0] != 'block']
+        if not rt.same(tag + ': statements of the other layout', binds(alt_got), binds(got)):
+          return False
+        if not rt.same(tag + ': configuration of the other layout', _config_of(alt_text), (False, cfg)):
+          return False
+    return True
+
+
+def _texts_counts():
+  cls = [c[1] for g in GROUP_NAMES for c in GROUPS[g]]
+  return len(cls), cls.count('A'), cls.count('R'), cls.count('M')
+
+
+def _texts_smoke():
+  """One concrete run per group / class / context dimension (the tags are looked up, not counted)."""
+  def at(group, tag, **kw):
+    g = GROUP_NAMES.index(group)
+    c = [x[0] for x in GROUPS[group]].index(tag)
+    d = dict(nind=3, nmind=4, nshape=4, grp=g, case=c, pre=0, post=0, ind=0, mind=0, shape=0)
+    d.update(kw)
+    return d
+  return [
+      at('blocks', 'blk2', pre=1, post=1, ind=1, mind=1),                       # INDENT mid-stream, TAB members, 2 DEDENTs
+      at('blocks', 'blk-col0-comment-and-blank-between', pre=2, post=1, shape=2),  # block -> block -> flat, CRLF
+      at('blocks', 'blk-last-line-comment', shape=1, ind=2),
+      at('blocks', 'nothing'),
+      at('blocks', 'blk-members-unequal-indent', post=2),
+      at('badblocks', 'blk-deeper-second-member', pre=1, post=1, mind=2),
+      at('badblocks', 'blk-import-inside', pre=3, shape=3),
+      at('joins', 'cont-before-from-import', pre=3, post=2),                       # import-as -> import -> block
+      at('joins', 'semicolon-join', pre=2),
+      at('refs', 'ref-call-split-by-comment-in-brackets', pre=1, post=2),
+      at('refs', 'bad-ref-after-multiline-string', pre=1),
+      at('refs', 'macro-spaces-after-sigil', ind=1),
+      at('names', 'alias-dotted', pre=1),
+      at('names', 'scope-named-import', post=1),
+      at('names', 'configurable-named-from-block', pre=3),
+      at('names', 'include-adjacent-strings', post=1, shape=1),
+  ]
 
 
 HARNESSES = {
@@ -329,26 +785,59 @@ HARNESSES = {
         fn='c03_selectors',
         anchors=['gin.config_parser:_parse_selector', 'gin.config_parser:parse_binding_key'],
         smoke=[dict(ngap=3, ctx=0, n=5, t0=0, t1=2, t2=1, t3=3, t4=0, g1=0, g2=0, g3=0, g4=0),
-               dict(ngap=3, ctx=2, n=3, t0=0, t1=2, t2=1, t3=0, t4=0, g1=1, g2=0, g3=0, g4=0)],
-        tiers={'quick': dict(split=dict(ctx=list(range(6)), t0=list(range(4))), fixed=dict(n=4, ngap=2, t4=0, g4=0),
+               dict(ngap=3, ctx=2, n=3, t0=0, t1=2, t2=1, t3=0, t4=0, g1=1, g2=0, g3=0, g4=0),
+               dict(ngap=3, ctx=6, n=3, t0=0, t1=2, t2=1, t3=0, t4=0, g1=0, g2=0, g3=0, g4=0),
+               dict(ngap=3, ctx=6, n=3, t0=0, t1=2, t2=1, t3=0, t4=0, g1=0, g2=1, g3=0, g4=0)],
+        tiers={'quick': dict(split=dict(ctx=list(range(7)), t0=list(range(4))), fixed=dict(n=4, ngap=2, t4=0, g4=0),
                              budget_s=100),
-               'thorough': dict(split=dict(ctx=list(range(6)), t0=list(range(4)), t1=list(range(4))),
+               'thorough': dict(split=dict(ctx=list(range(7)), t0=list(range(4)), t1=list(range(4))),
                                 fixed=dict(n=5, ngap=2), budget_s=900)},
         bounds='selector = 4 (quick) / 5 (thorough) tokens over {a, b1, /, .} with a gap of none / one space '
-               'before each, in 6 contexts (binding key, block header, @ value, % value, import, from-import)'),
+               'before each, in 7 contexts (binding key, block header, @ value, % value, import, from-import, evaluated @...() value preceded by a non-ASCII string on the same line)'),
     'c03_selectors_ws': dict(
         fn='c03_selectors',
         anchors=['gin.config_parser:_parse_selector'],
         smoke=[dict(ngap=4, ctx=0, n=3, t0=0, t1=2, t2=1, t3=0, t4=0, g1=0, g2=2, g3=0, g4=0),
-               dict(ngap=4, ctx=2, n=3, t0=0, t1=2, t2=1, t3=0, t4=0, g1=3, g2=0, g3=0, g4=0)],
-        tiers={'quick': dict(split=dict(ctx=list(range(6)), t0=list(range(4))),
+               dict(ngap=4, ctx=2, n=3, t0=0, t1=2, t2=1, t3=0, t4=0, g1=3, g2=0, g3=0, g4=0),
+               dict(ngap=4, ctx=6, n=3, t0=0, t1=2, t2=1, t3=0, t4=0, g1=0, g2=3, g3=0, g4=0)],
+        tiers={'quick': dict(split=dict(ctx=list(range(7)), t0=list(range(4))),
                              fixed=dict(n=3, ngap=4, t3=0, t4=0, g3=0, g4=0), budget_s=100),
-               'thorough': dict(split=dict(ctx=list(range(6)), t0=list(range(4)), t1=list(range(4))),
+               'thorough': dict(split=dict(ctx=list(range(7)), t0=list(range(4)), t1=list(range(4))),
                                 fixed=dict(n=4, ngap=4, t4=0, g4=0), budget_s=900)},
         bounds='selector = 3 (quick) / 4 (thorough) tokens with a gap of none / space / TAB / backslash-newline '
-               'continuation before each, in the same 6 contexts'),
+               'continuation before each, in the same 7 contexts'),
+    'c03_texts': dict(
+        fn='c03_texts',
+        anchors=['gin.config_parser:parse_statement', 'gin.config_parser:_parse_binding_block',
+                 'gin.config_parser:_parse_import', 'gin.config_parser:_parse_selector',
+                 'gin.config_parser:_parse_identifier', 'gin.config_parser:_maybe_parse_configurable_reference',
+                 'gin.config_parser:_maybe_parse_macro', 'gin.config:parse_config'],
+        smoke=_texts_smoke(),
+        tiers={'quick': dict(split=dict(grp=list(range(5)), pre=list(range(4))),
+                             fixed=dict(nind=2, nmind=2, nshape=3), budget_s=150),
+               'thorough': dict(split=dict(grp=list(range(5)), pre=list(range(4)), post=list(range(3))),
+                                fixed=dict(nind=3, nmind=4, nshape=4), budget_s=900)},
+        bounds='%d catalogued statement texts the layout renderer cannot produce (%d that spell statements in a layout '
+               'the statement names, %d that are no statement sequence or hold a malformed scoped name and must be '
+               'rejected without reaching the configuration, %d on which the statement is silent: rejected or read '
+               'exactly, and alike in a second layout) in 5 groups: block layouts and zero-statement / form-feed / '
+               'lone-CR texts; malformed blocks; statement parts on different physical lines and statement-joining '
+               'near-misses; reference / macro layout inside values incl. malformed selectors after non-ASCII text, '
+               'after a multi-line string and on bracket-continuation lines; identifier positions of the import '
+               'forms, keyword-like scope / macro / configurable names, include operands.  Each text stands '
+               'alone or after one of {flat binding, block, import with alias} and alone or before one of {flat '
+               'binding, block} (3-statement sequences block -> block -> flat, import-as -> binding -> block), '
+               'is itself unindented / indented by 2 spaces (quick) / by a TAB (thorough) while its neighbours stay '
+               'in column 0, has block members indented by 2 spaces or a TAB (quick) / 1 or 6 spaces (thorough), and '
+               'ends lines with LF with or without the final one, or CRLF (quick) / CRLF without the final one '
+               '(thorough)' % _texts_counts()),
 }
-RULE = 'one case per distinct (statement kinds, layout features) / (context, tokens, gaps) tuple; non-trivial: some non-default layout feature / at least two tokens'
+RULE = ('one case per distinct (statement kinds, layout features) / (context, tokens, gaps) / (catalogued text, neighbours, '
+        'indentations, line terminator) tuple; non-trivial: some non-default layout feature / at least two tokens / every catalogued text')
 SOLVER_ROLE = ('certifies coverage: once the F-choices are made everything is concrete text, which the real tokenizer and parser '
                'process natively; the solver contributes the proof (CONFIRMED) that the bounded choice space was covered completely')
-OUTSIDE = 'tabs for indentation, CRLF line ends, form feeds; more than 2 statements per text in the layout harness; more than two non-default layout features per statement'
+OUTSIDE = ('more than 2 statements per text in the layout harness (3-statement sequences only around the catalogued texts of '
+           'c03_texts); more than two non-default layout features per statement; TAB indentation, CRLF / lone CR line ends and '
+           'form feeds only on the catalogued texts (CRLF, form feeds and indentation of flat statements are judged as: rejected '
+           'or read exactly, because the statement does not name them); BOM-prefixed text, NUL bytes; list / file-like / bytes '
+           'carriers of the text and skip_unknown (review item 11); included files other than a one-line file')
